@@ -28,3 +28,12 @@ Ltac process_norm :=
   cbv beta iota zeta delta -[num add sub mul div neg nabs nexp nln rpow ipow lit leb ltb eqb pf_call] in *.
 Ltac bridge_process :=
   process_norm; repeat (step_if; process_norm); all_pcs_used; reflexivity.
+
+(* fit bridges: candidate functions are abstract (fun n m => ...) with equations as hypotheses *)
+Ltac bridge_fit :=
+  repeat match goal with H : @eq (num _) _ _ |- _ => rewrite H in * ; clear H end;
+  repeat match goal with H : @eq (list _) _ _ |- _ => rewrite H in * ; clear H end;
+  process_norm;
+  repeat match goal with H : @eq (num _) _ _ |- _ => rewrite H in * ; clear H end;
+  repeat match goal with H : @eq (list _) _ _ |- _ => rewrite H in * ; clear H end;
+  repeat (step_if; process_norm); all_pcs_used; reflexivity.
